@@ -275,8 +275,8 @@ theorem C04_nested_validate (tt : TT) : ∀ x y, tt.validate x = .ok y → InvDe
 /-- **Nested containers**: a mutator applied to a list at any depth of a value
 satisfying the deep invariant leaves a value satisfying it (structural
 induction on the path). -/
-theorem C04_nested (eq : CV → CV → Bool) (sort : List CV → List CV)
-    (hsort : ∀ l, (sort l).Perm l) (path : List Nat) :
+theorem C04_nested (eq : CV → CV → Bool) (sort : Nat → List CV → List CV)
+    (hsort : ∀ sp l, (sort sp l).Perm l) (path : List Nat) :
     ∀ (tt : TT) (op : Op CV) (cv cv' : CV), InvDeep tt cv →
       stepAt eq sort tt path op cv = some (.ok cv') → InvDeep tt cv' := by
   induction path with
@@ -294,7 +294,7 @@ theorem C04_nested (eq : CV → CV → Bool) (sort : List CV → List CV)
         · rename_i o ho
           simp only [Except.ok.injEq] at h; subst h
           obtain ⟨hb1, hb2, hel⟩ := hinv
-          have := C04_list_step_invP c (inner.env eq sort) (fun l => hsort l) (InvDeep inner)
+          have := C04_list_step_invP c (inner.env eq sort) (fun sp l => hsort sp l) (InvDeep inner)
             (by rintro x ⟨k, y, hy⟩; exact C04_nested_validate inner y x hy)
             xs op o hel ⟨hb1, hb2⟩ ho
           exact ⟨this.2.1, this.2.2, this.1⟩
@@ -332,7 +332,7 @@ theorem C04_nested (eq : CV → CV → Bool) (sort : List CV → List CV)
 def cfg13 : LenCfg := ⟨1, 3⟩
 def rejNeg : Env Int :=
   { v := fun _ x => if x < 0 then .error .traitError else .ok x, eq := (· == ·),
-    sort := fun l => l.mergeSort (· ≤ ·) }
+    sort := fun _ l => l.mergeSort (· ≤ ·) }
 
 /-- A reachable state meeting `Inv`, an accepted and two rejected operations. -/
 example : Inv cfg13 rejNeg [1, 2] := by
